@@ -85,7 +85,8 @@ func main() {
 	doPlan("rr", "-", parseGroup("m1:t1:-:;m2:t1:-:", "t1:0,1;t2:0"))
 	doF12()
 	doPlan("sticky", "join", supersetJoinWitness())
-	calls += 5
+	doPlan("sticky", "other", multiGenWitness())
+	calls += 6
 
 	// ---- 3. exhaustive small shapes, all three strategies; sticky: fresh + replan + one more change
 	visit := func(g *Group) {
@@ -150,6 +151,12 @@ func main() {
 	}
 	if run.N > 0 && run.N < 5000 {
 		fam = run.N / 10
+	}
+	for i := 0; i < fam; i++ {
+		rejoinChain(rnd)
+	}
+	for i := 0; i < 3*fam; i++ {
+		multiGen(rnd) // before clusterJoin, which tends to use up the non-return budget
 	}
 	for i := 0; i < fam; i++ {
 		clusterJoin(rnd)
